@@ -211,6 +211,11 @@ impl LazyVal {
         if let Some(s) = current() {
             s.note(NOTE_LAZY_INIT, key as i64, t as i64);
         }
+        if key == 2 {
+            // a scheduling point inside the initialiser: several threads can be inside it at once
+            // (loom documents that such an initialiser may run more than once; one value wins)
+            loom::thread::yield_now();
+        }
         let cell = loom::cell::UnsafeCell::new(0usize);
         // the initialiser writes the cell: every later reader must be ordered after this
         cell.with_mut(|p| unsafe { *p = 7 + key });
@@ -229,6 +234,7 @@ impl Drop for LazyVal {
 loom::lazy_static! {
     static ref LAZY0: LazyVal = LazyVal::new(0);
     static ref LAZY1: LazyVal = LazyVal::new(1);
+    static ref LAZY2: LazyVal = LazyVal::new(2);
 }
 
 // ---------------------------------------------------------------------------------
@@ -708,12 +714,20 @@ impl<'a> Th<'a> {
                 Some(if k == 0 { TLS0.with(f) } else { TLS1.with(f) })
             }
             LazyGet { k } => {
-                let v: &LazyVal = if k == 0 { &LAZY0 } else { &LAZY1 };
+                let v: &LazyVal = match k {
+                    0 => &LAZY0,
+                    1 => &LAZY1,
+                    _ => &LAZY2,
+                };
                 self.sh.note(NOTE_LAZY_ADDR, k as i64, v as *const LazyVal as usize as i64);
                 Some(v.key as i64)
             }
             LazyCellRead { k } => {
-                let v: &LazyVal = if k == 0 { &LAZY0 } else { &LAZY1 };
+                let v: &LazyVal = match k {
+                    0 => &LAZY0,
+                    1 => &LAZY1,
+                    _ => &LAZY2,
+                };
                 Some(v.cell.with(|p| unsafe { std::ptr::read(p) }) as i64)
             }
             PanicIf { v } => {
